@@ -411,7 +411,7 @@ FarBackCase(x) ==
            \o [i \in 1 .. k |-> Li("t2", 9)]                                                         \* the shadow, then the end of the text
       r0 == Regs0(64, 128, 77, 5, 6, 0)
       fin == Final(p, r0, "ramp", 256, 64)
-  IN CaseRec("FarBack", p, r0, "ramp", 256, fin, {"t1", "t2", "t3"}, {}, Tags(p, fin), [k |-> k, br |-> x[2]])
+  IN CaseRec("FarBack", p, r0, "ramp", 256, fin, {"t1", "t2", "t3"}, {}, Tags(p, fin), [taken |-> TRUE, k |-> k, br |-> x[2]])
 
 (* ------------------------------- EndAt (C09) ------------------------------ *)
 (* Straight-line programs of n instructions that end by running past the last instruction; the last    *)
